@@ -88,40 +88,79 @@ fn as_u(v: &Value) -> Option<u64> {
     v.as_u64()
 }
 
-/// Lenient reading of a (well-formed) document: what it declares.
+/// Lenient reading of a (well-formed) document: what it declares.  Understands the array form
+/// `[nodes, edges, (more edge lists...)]` and a map form `{"nodes": .., "edges": ..}` (also with keys 0 / 1),
+/// so that an implementation accepting such shapes is still judged on content.
 fn declared(doc: &Value) -> Option<Decl> {
-    let top = doc.as_array()?;
     let mut d = Decl {
         nodes: vec![],
         edges: vec![],
         undeclared_refs: 0,
     };
-    if let Some(ns) = top.get(0).and_then(|x| x.as_array()) {
-        for n in ns {
-            if let Some(a) = n.as_array() {
-                if let (Some(k), Some(p)) = (a.get(0).and_then(as_u), a.get(1).and_then(|x| x.as_i64())) {
-                    d.nodes.push((k, p));
+    let mut node_lists: Vec<&Value> = vec![];
+    let mut edge_lists: Vec<&Value> = vec![];
+    match doc {
+        Value::Array(top) => {
+            if let Some(n) = top.get(0) {
+                node_lists.push(n);
+            }
+            for e in top.iter().skip(1) {
+                edge_lists.push(e);
+            }
+        }
+        Value::Object(o) => {
+            let mut any = false;
+            for (k, v) in o {
+                match k.as_str() {
+                    "nodes" | "0" => {
+                        node_lists.push(v);
+                        any = true;
+                    }
+                    "edges" | "1" => {
+                        edge_lists.push(v);
+                        any = true;
+                    }
+                    _ => {}
+                }
+            }
+            if !any {
+                return None;
+            }
+        }
+        _ => return None,
+    }
+    for ns in node_lists {
+        if let Some(ns) = ns.as_array() {
+            for n in ns {
+                if let Some(a) = n.as_array() {
+                    if let (Some(k), Some(p)) = (a.get(0).and_then(as_u), a.get(1).and_then(|x| x.as_i64())) {
+                        d.nodes.push((k, p));
+                    }
                 }
             }
         }
     }
-    if let Some(es) = top.get(1).and_then(|x| x.as_array()) {
-        for e in es {
-            if let Some(a) = e.as_array() {
-                let u = a.get(0).and_then(as_u);
-                let w = a.get(1).and_then(as_u);
-                let (id, val) = match a.get(2).and_then(|x| x.as_array()) {
-                    Some(t) => (t.get(0).and_then(|x| x.as_i64()).unwrap_or(-1), t.get(1).and_then(|x| x.as_i64()).unwrap_or(0)),
-                    None => (-1, 0),
-                };
-                if let (Some(u), Some(w)) = (u, w) {
-                    d.edges.push((u, w, id, val));
-                    for k in [u, w] {
-                        if !d.nodes.iter().any(|(nk, _)| *nk == k) {
-                            d.undeclared_refs += 1;
-                        }
+    for es in edge_lists {
+        if let Some(es) = es.as_array() {
+            for e in es {
+                if let Some(a) = e.as_array() {
+                    let u = a.get(0).and_then(as_u);
+                    let w = a.get(1).and_then(as_u);
+                    let (id, val) = match a.get(2).and_then(|x| x.as_array()) {
+                        Some(t) => (t.get(0).and_then(|x| x.as_i64()).unwrap_or(-1), t.get(1).and_then(|x| x.as_i64()).unwrap_or(0)),
+                        None => (-1, 0),
+                    };
+                    if let (Some(u), Some(w)) = (u, w) {
+                        d.edges.push((u, w, id, val));
                     }
                 }
+            }
+        }
+    }
+    for (u, w, _, _) in &d.edges {
+        for k in [u, w] {
+            if !d.nodes.iter().any(|(nk, _)| nk == k) {
+                d.undeclared_refs += 1;
             }
         }
     }
@@ -144,7 +183,18 @@ fn cbor_to_json(v: &serde_cbor::Value) -> Value {
         C::Bytes(b) => json!(format!("bytes{}", b.len())),
         C::Text(s) => json!(s),
         C::Array(a) => Value::Array(a.iter().map(cbor_to_json).collect()),
-        C::Map(m) => json!({"map": m.len()}),
+        C::Map(m) => {
+            let mut o = serde_json::Map::new();
+            for (k, v) in m {
+                let ks = match k {
+                    C::Text(s) => s.clone(),
+                    C::Integer(i) => i.to_string(),
+                    other => format!("{:?}", other),
+                };
+                o.insert(ks, cbor_to_json(v));
+            }
+            Value::Object(o)
+        }
         C::Tag(_, b) => cbor_to_json(b),
         _ => Value::Null,
     }
@@ -204,7 +254,46 @@ pub fn judge_doc<F: Flav>(bytes: &[u8], fmt: &str, origin: &str, rep: &mut Repor
             }
             let walkable = msgs.is_empty();
             match lenient.as_ref().and_then(declared) {
-                None => rep.count("accepted_but_not_readable_leniently"),
+                None => {
+                    // accepted although it is not a [nodes, edges] array (an alternative input shape?): shape-independent
+                    // oracle - every number of the result must occur somewhere in the document
+                    rep.count("accepted_but_not_readable_leniently");
+                    if walkable {
+                        let mut nums: Vec<i64> = vec![];
+                        fn collect(v: &Value, out: &mut Vec<i64>) {
+                            match v {
+                                Value::Number(n) => out.push(n.as_i64().unwrap_or(i64::MIN)),
+                                Value::Array(a) => a.iter().for_each(|x| collect(x, out)),
+                                Value::Object(o) => o.iter().for_each(|(k, x)| {
+                                    if let Ok(i) = k.parse::<i64>() {
+                                        out.push(i);
+                                    }
+                                    collect(x, out)
+                                }),
+                                Value::String(s) => {
+                                    if let Ok(i) = s.parse::<i64>() {
+                                        out.push(i);
+                                    }
+                                }
+                                _ => {}
+                            }
+                        }
+                        if let Some(l) = &lenient {
+                            collect(l, &mut nums);
+                        }
+                        for (k, n) in F::g_iter(&g) {
+                            if !nums.contains(&(k as i64)) || !nums.contains(&(F::val(&n).prio as i64)) {
+                                msgs.push(format!("node ({}, {}) of the result occurs nowhere in the document", k, F::val(&n).prio));
+                            }
+                            for e in F::iter_out(&n) {
+                                let ev = F::e_val(&e);
+                                if !nums.contains(&(ev.id as i64)) || !nums.contains(&(ev.val as i64)) {
+                                    msgs.push(format!("edge value e{}:{} of the result occurs nowhere in the document", ev.id, ev.val));
+                                }
+                            }
+                        }
+                    }
+                }
                 // a graph that cannot even be walked is already reported; do not walk it again
                 Some(_) if !walkable => {}
                 Some(d) => {
@@ -529,6 +618,95 @@ pub fn run<F: Flav>(rep: &mut Report, random_docs: u64, shard: u64, nshards: u64
                 rep.distinct(fnv_str(&format!("{}|tc|{}|{}", F::NAME, text, cut)));
                 judge_doc::<F>(&cb[..cut], "cbor", "truncation", rep);
             }
+        }
+        // the same content in a map form (field order both ways, nodes missing, integer keys): rejected today;
+        // an implementation that accepts such shapes is judged on content like any other
+        {
+            let (ns, es) = (doc.get(0).cloned().unwrap_or(json!([])), doc.get(1).cloned().unwrap_or(json!([])));
+            let mut es_bad = es.clone();
+            if let Some(e) = es_bad.as_array_mut().and_then(|a| a.last_mut()).and_then(|e| e.as_array_mut()) {
+                if e.len() >= 2 {
+                    e[1] = json!(77);
+                }
+            }
+            let forms = vec![
+                json!({"nodes": ns, "edges": es}),
+                json!({"edges": es, "nodes": ns}),
+                json!({"edges": es}),
+                json!({"edges": es_bad, "nodes": ns}),
+                json!({"nodes": ns, "edges": es_bad}),
+                json!({"0": ns, "1": es_bad}),
+                json!([ns, es, es]),
+                json!([ns, es, es_bad]),
+                json!([ns, [], es]),
+            ];
+            for f in forms {
+                if !mine(&mut idx) {
+                    continue;
+                }
+                rep.count("alternative_shape_documents");
+                let t = serde_json::to_string(&f).unwrap();
+                rep.distinct(fnv_str(&format!("{}|alt|{}", F::NAME, t)));
+                judge_doc::<F>(t.as_bytes(), "json", "alternative shape (map / extra lists)", rep);
+                if let Ok(b) = serde_cbor::to_vec(&json_to_cbor(&f)) {
+                    judge_doc::<F>(&b, "cbor", "alternative shape (map / extra lists)", rep);
+                }
+                // CBOR map with integer keys 0 / 1
+                if let Some(o) = f.as_object() {
+                    let m: std::collections::BTreeMap<serde_cbor::Value, serde_cbor::Value> = o
+                        .iter()
+                        .map(|(k, v)| (if k == "nodes" || k == "0" { serde_cbor::Value::Integer(0) } else { serde_cbor::Value::Integer(1) }, json_to_cbor(v)))
+                        .collect();
+                    if let Ok(b) = serde_cbor::to_vec(&serde_cbor::Value::Map(m)) {
+                        judge_doc::<F>(&b, "cbor", "alternative shape (integer-keyed map)", rep);
+                    }
+                }
+            }
+        }
+        // the same document in other CBOR encodings: indefinite-length arrays, tagged elements; with and
+        // without an edge retargeted to an undeclared key
+        for variant in 0..4u8 {
+            if !mine(&mut idx) {
+                continue;
+            }
+            let mut d2 = doc.clone();
+            if variant >= 2 {
+                if let Some(e) = d2.get_mut(1).and_then(|x| x.as_array_mut()).and_then(|a| a.last_mut()).and_then(|e| e.as_array_mut()) {
+                    if e.len() >= 2 {
+                        e[1] = json!(77);
+                    }
+                }
+            }
+            fn enc(v: &Value, indefinite: bool, tag: bool, out: &mut Vec<u8>) {
+                match v {
+                    Value::Array(a) => {
+                        if tag {
+                            out.push(0xc6 + (a.len() as u8 % 10));
+                        }
+                        if indefinite {
+                            out.push(0x9f);
+                            for x in a {
+                                enc(x, indefinite, tag, out);
+                            }
+                            out.push(0xff);
+                        } else {
+                            out.extend(serde_cbor::to_vec(&serde_cbor::Value::Array(vec![])).unwrap()[..0].iter());
+                            let mut hdr = serde_cbor::to_vec(&serde_cbor::Value::Array(a.iter().map(|_| serde_cbor::Value::Null).collect())).unwrap();
+                            hdr.truncate(hdr.len() - a.len());
+                            out.extend(hdr);
+                            for x in a {
+                                enc(x, indefinite, tag, out);
+                            }
+                        }
+                    }
+                    other => out.extend(serde_cbor::to_vec(&json_to_cbor(other)).unwrap()),
+                }
+            }
+            let mut bytes = vec![];
+            enc(&d2, variant % 2 == 0, variant % 2 == 1, &mut bytes);
+            rep.count("cbor_reencodings");
+            rep.distinct(fnv(&bytes) ^ fnv_str(F::NAME));
+            judge_doc::<F>(&bytes, "cbor", "re-encoded (indefinite-length / tagged)", rep);
         }
         // CBOR length-header inflation: every small array / map / string header claims a huge count
         for pos in 0..cb.len() {
